@@ -206,13 +206,32 @@ Theorem png_up_roundtrip : forall (cols : nat) rows,
 Proof. exact ValidateProofs.png_up_roundtrip. Qed.
 Print Assumptions png_up_roundtrip.
 
-(* the entry point that is extracted and run adds two boundary checks to [validate]: every theorem
-   above therefore holds of its results as well *)
+(* the entry point that is extracted and run adds to [validate] two boundary checks and the check of
+   /Filter against /DecodeParms in every stream dictionary: every theorem above therefore holds of
+   its results as well *)
 Theorem validate_strict_refines :
   forall orc f d, validate_strict orc f = VOk d ->
-    validate orc f = VOk d /\ boundaries_ok f d = true.
+    validate orc f = VOk d /\ boundaries_ok f d = true /\ filters_doc_ok d = true.
 Proof. exact validate_strict_sound. Qed.
 Print Assumptions validate_strict_refines.
+
+(* 7.3.8.2 Table 5 for every stream object of an accepted file: /Filter a name with /DecodeParms
+   absent or a dictionary, or an array of names with /DecodeParms absent or an array of the same
+   length whose entries are dictionaries or null *)
+Theorem sound_filter_parms :
+  forall d, filters_doc_ok d = true ->
+  forall o sd boff len, In o (d_objects d) -> o_body o = BStream sd boff len ->
+    match dict_get n_Filter sd, dict_get n_DecodeParms sd with
+    | None, None => True
+    | Some (OName _), None => True
+    | Some (OName _), Some (ODict _) => True
+    | Some (OArr names), None => forallb is_name names = true
+    | Some (OArr names), Some (OArr pp) =>
+      forallb is_name names = true /\ length pp = length names /\ forallb parm_entry_ok pp = true
+    | _, _ => False
+    end.
+Proof. exact filters_doc_ok_spec. Qed.
+Print Assumptions sound_filter_parms.
 
 (* ================= strict is contained in lenient ================= *)
 
